@@ -158,7 +158,9 @@ def model : KModel α where
       else
         let n1 := n1i.toNat
         let n2 := n2i.toNat
-        if rest.length ≠ n1 + n2 then .error "arity"
+        -- a longer row is accepted (extract slices q1/q9 out of it, trailing columns are ignored; pack returns
+        -- 4+n1+n2 values); a shorter one is a slice panic
+        if rest.length < n1 + n2 then .error "index-out-of-range"
         else
           let st0 : State α := ⟨s, r, rest.take n2, (rest.drop n2).take n1⟩
           let res := run x1 x2 x3 x4 n1 n2 st0 (rain.zip pet)
